@@ -758,7 +758,7 @@ class Interp:
                 return ('shape-slice', base[1], norm(e.slice))
             i = self.ev(e.slice)
             if isinstance(i, Rat) and i.is_const():
-                return shape_sym(base[1].name, int(i.const_value()))
+                return _extent(base[1], int(i.const_value()))
             self.incomplete(e, 'shape index')
         if isinstance(base, tuple) and base and base[0] == 'shape-slice':
             self.incomplete(e, 'index of a shape slice')
@@ -847,8 +847,52 @@ class Interp:
                     out.append(('idx', self.as_scalar(v, it)))
         return out
 
+    def _swept_value(self, arr, idx):
+        """store-to-load forwarding across loop nests: a scratch array filled cell by cell by an earlier, completed nest
+        (`A[y, x] = e(y, x)` for every (y, x) of its ranges, the only store A ever gets) and read now at the loop variables of a
+        nest over the same ranges holds e at those indices.  None when that is not the situation."""
+        sw = getattr(self.k, 'swept', {}).get(arr.name)
+        if not sw or not all(isinstance(i, Rat) for i in idx):
+            return None
+        st, chain = sw
+        if len(idx) != len(chain):
+            return None
+        last = [s_ for s_ in self.k.stores if s_.arr.name == arr.name and not (s_.idx == 'all' and not s_.loops and s_.seq < st.seq)]
+        if len(last) != 1 or last[0] is not st:
+            return None
+        names = {str(a.args[0]).strip("'") for a in walk_atoms(st.value) if isinstance(a, App) and a.name in ('read', 'cell?', 'getitem')}
+        if any(s_.seq > st.seq and s_.arr.name in names for s_ in self.k.stores):
+            return None         # what the stored expression reads has changed since
+        rep = {}
+        for p_, i_ in enumerate(idx):
+            L = next((l_ for l_ in self.loops if i_ == Rat.sym(l_.var)), None)
+            D = chain[p_]
+            if L is None or L.kind != 'range' or L.lo != D.lo or L.hi != D.hi or L.step != D.step or D.var in rep:
+                return None
+            rep[D.var] = i_
+        return subst(st.value, lambda a: rep.get(a.name) if isinstance(a, Sym) else None)
+
+    def _note_swept(self, loop):
+        """after an outermost loop nest has completed: the scratch arrays it defined cell by cell (see _swept_value)"""
+        sw = self.k.__dict__.setdefault('swept', {})
+        for st in self.k.stores:
+            if not st.loops or st.loops[0] is not loop or st.arr.init == 'param' or st.idx == 'all':
+                continue
+            chain = st.loops
+            ok = isinstance(st.value, Rat) and isinstance(st.idx, tuple) and len(st.idx) == len(chain) and \
+                all(isinstance(i_, Rat) and i_ == Rat.sym(l_.var) and l_.kind == 'range' and l_.step == Rat.const(1) for i_, l_ in zip(st.idx, chain)) and \
+                len(st.guards) == getattr(loop, 'gdepth', -1) and \
+                not any(o_ is not st and o_.arr.name == st.arr.name and not (o_.idx == 'all' and not o_.loops and o_.seq < st.seq) for o_ in self.k.stores)
+            if ok:
+                sw[st.arr.name] = (st, chain)
+            else:
+                sw.pop(st.arr.name, None)
+
     def read(self, arr, idx):
         """element read with store-to-load forwarding for the same symbolic index in straight-line code"""
+        fw = self._swept_value(arr, idx)
+        if fw is not None:
+            return fw
         cells = getattr(self, 'cells', None)
         if cells:
             key = (arr.name, tuple(i.canon_key() for i in idx))
@@ -1404,7 +1448,7 @@ class Interp:
                 return
             if isinstance(v, tuple) and v and v[0] == 'shape':
                 for i, te in enumerate(t.elts):
-                    self.assign(te, shape_sym(v[1].name, i), node)
+                    self.assign(te, _extent(v[1], i), node)
                 return
             if isinstance(v, tuple) and v and v[0] == 'shape-slice' and v[2].replace(' ', '') == '-2:' \
                     and len(t.elts) == 2:
@@ -2031,6 +2075,8 @@ class Interp:
         if hasattr(self, 'cells'):
             for kk in [kk for kk, vv in self.cells.items() if vv[2] > len(self.loops)]:
                 self.cells[kk] = (None, ('stale',), -1)
+        if not self.loops:
+            self._note_swept(loop)
         for n in assigned:
             post = self.env.get(n)
             if n in accs and n in carried and isinstance(post, Rat) and isinstance(pre[n], (Rat, tuple)) \
@@ -2249,6 +2295,14 @@ def merge_returns(returns, interp):
 
 def shape_sym(name, i):
     return Rat.atom(App('shape', [name, i]))
+
+
+def _extent(arr, i):
+    """extent i of an array: for an array allocated in this kernel with an explicit shape, the expression it was given"""
+    shp = getattr(arr, 'shape', None)
+    if getattr(arr, 'init', 'param') != 'param' and isinstance(shp, (tuple, list)) and 0 <= i < len(shp) and isinstance(shp[i], Rat):
+        return shp[i]
+    return shape_sym(arr.name, i)
 
 
 def _nonneg_atom(a):
